@@ -18,12 +18,12 @@ def findFrom (off : Nat) (d s : Bytes) : Option Nat :=
 
 /-- `s` starts at a BeginString marker: the offset where the search for the trailer starts
     (`guarded = false`: the arithmetic before the `fix:` commit, which can wrap to a negative offset) -/
-def bodyEnd (guarded : Bool) (s : Bytes) : Res Int :=
+def bodyEnd (guarded : Bool) (ee : String) (s : Bytes) : Res Int :=
   match findFrom 0 dLen s with
-  | none => .err "eof"
+  | none => .err ee
   | some li =>
     match findFrom (li + 3) dSOH s with
-    | none => .err "eof"
+    | none => .err ee
     | some off =>
       if off = li + 3 then .err "No length given"
       else
@@ -36,25 +36,25 @@ def bodyEnd (guarded : Bool) (s : Bytes) : Res Int :=
         | .fault w => .fault w
 
 /-- one frame and the rest of the stream -/
-def nextFrame (guarded : Bool) (s : Bytes) : Res (Bytes × Bytes) :=
+def nextFrame (guarded : Bool) (ee : String) (s : Bytes) : Res (Bytes × Bytes) :=
   match findFrom 0 dBegin s with
-  | none => .err "eof"
+  | none => .err ee
   | some start =>
     let s1 := s.drop start
-    match bodyEnd guarded s1 with
+    match bodyEnd guarded ee s1 with
     | .ok be =>
       if be < 0 then .fault "slice bounds out of range"
       else
         match findFrom be.toNat dCk s1 with
-        | none => .err "eof"
+        | none => .err ee
         | some e1 =>
           match findFrom (e1 + 1) dSOH s1 with
-          | none => .err "eof"
+          | none => .err ee
           | some e2 => .ok (s1.take (e2 + 1), s1.drop (e2 + 1))
     | .err x => .err x
     | .fault w => .fault w
 
-theorem nextFrame_shorter {g : Bool} {s m r : Bytes} (h : nextFrame g s = .ok (m, r)) : r.length < s.length := by
+theorem nextFrame_shorter {g : Bool} {ee : String} {s m r : Bytes} (h : nextFrame g ee s = .ok (m, r)) : r.length < s.length := by
   unfold nextFrame at h
   split at h
   · cases h
@@ -81,15 +81,18 @@ theorem nextFrame_shorter {g : Bool} {s m r : Bytes} (h : nextFrame g s = .ok (m
     · cases h
 
 /-- frames of the whole stream and how it ends -/
-def framesWholeG (guarded : Bool) (s : Bytes) : Out :=
-  match h : nextFrame guarded s with
-  | .ok (m, r) => let o := framesWholeG guarded r; { o with frames := m :: o.frames }
+def framesWholeG (guarded : Bool) (ee : String) (s : Bytes) : Out :=
+  match h : nextFrame guarded ee s with
+  | .ok (m, r) => let o := framesWholeG guarded ee r; { o with frames := m :: o.frames }
   | .err c => { frames := [], end_ := .err c }
   | .fault w => { frames := [], end_ := .fault w }
 termination_by s.length
 decreasing_by exact nextFrame_shorter h
 
-def framesWhole := framesWholeG true
+/-- `ee`: the error the reader ends with (what a search that runs off the end of the stream reports) -/
+def framesWholeE (ee : String) (s : Bytes) : Out := framesWholeG true ee s
+/-- … for a stream that ends with io.EOF -/
+def framesWhole (s : Bytes) : Out := framesWholeE "eof" s
 
 /-! ## a well-formed frame (what the framer needs of a well-formed message; the CheckSum VALUE is not looked at)
 
@@ -151,7 +154,7 @@ def mkParts : List (Bool × Bytes) → Parts
 /-! ## the monitor -/
 
 def endClass : End → String
-  | .err c => if c = "eof" then "eof" else "length"
+  | .err c => if c = "eof" then "eof" else if c = "io" then "io" else "length"
   | .fault _ => "panic"
 
 structure MonState where
@@ -162,22 +165,23 @@ structure MonState where
 
 /-- clauses violated by one observed reading (`frames`, `end_`) of the current stream.
     `viaLoop`: observed through `readLoop`, which only logs the error.  -/
-def monRead (st : MonState) (opName : String) (viaLoop : Bool) (frames : List Bytes) (end_ : String) : List String :=
+def monRead (st : MonState) (opName : String) (viaLoop : Bool) (ee : String) (frames : List Bytes) (end_ : String) : List String :=
   if end_ = "panic" ∨ end_ = "hang" then
     -- context: does the arithmetic of the ORIGINAL jumpLength (no overflow guard) explain it?
-    let cause := match (framesWholeG false st.stream).end_ with
+    let cause := match (framesWholeG false ee st.stream).end_ with
       | .fault _ => "bodylength-end-offset-overflows-int"
       | .err _ => "unexplained"
     ["c09_framer_" ++ end_ ++ "{cause=" ++ cause ++ "}"]
   else
-    let spec := st.spec
+    let spec := if ee = "eof" then st.spec else framesWholeE ee st.stream
     let c1 := if frames ≠ spec.frames then ["c12_frames_differ_from_whole_stream_spec{op=" ++ opName ++ "}"]
               else if ¬ viaLoop ∧ end_ ≠ endClass spec.end_ then ["c12_end_differs_from_whole_stream_spec{op=" ++ opName ++ "}"]
               else []
     let c2 := match st.ref with
       | some (f0, e0) =>
         if frames ≠ f0 then ["c12_chunk_dependent{what=frames,op=" ++ opName ++ "}"]
-        else if ¬ viaLoop ∧ end_ ≠ e0 then ["c12_chunk_dependent{what=end,op=" ++ opName ++ "}"]
+        -- the whole reading ended with io.EOF; a reader that ends with `ee` must end the same way, `ee` in place of EOF
+        else if ¬ viaLoop ∧ end_ ≠ (if e0 = "eof" then ee else e0) then ["c12_chunk_dependent{what=end,op=" ++ opName ++ "}"]
         else []
       | none => []
     let c3 := match st.parts with
